@@ -25,6 +25,11 @@ def check(run, prefix="O7"):
     # "skipped as a consequence of a finalization" / "finalized": the tracker learns these only from the FinalizationEvent
     from . import C08
     C08.ob_status_reporting(run, prefix + ".10")
+    C08.ob_event_flow(run, prefix + ".12")
+    # a notarized / notar-fallback-certified block becomes a parent candidate only if its certificate is admitted: the duplicate
+    # test of received certificates must not reject a second notar-fallback block of the same slot
+    from . import C03
+    C03.ob_once(run, prefix + ".13")
     ob_skip_chain(run, prefix + ".11")
     D.ob_watermark_comparisons(run, "O7.9", ["consensus::pool"], 10, "pairs for the slot at the root are still live: discarding them loses an announcement, keeping older ones announces a pair again")
     D.ob_state_mutations(run, "O7.8", ['consensus::pool::parent_ready_tracker::ParentReadyTracker', 'consensus::pool::parent_ready_tracker::parent_ready_state::ParentReadyState'], 'ready/skip/notar-fallback marks are monotone: removing or overwriting them loses or repeats ParentReady announcements')
